@@ -1,4 +1,5 @@
 """C08 - J v is the data derivative, J^T its exact adjoint."""
+import contextlib
 import os
 import shutil
 import tempfile
@@ -8,32 +9,71 @@ import numpy as np
 from hypothesis import strategies as st
 
 from vp import gen, simgen
-from vp.framework import Violation, Inconclusive, VERIF
+from vp.framework import Violation, Inconclusive, HarnessError, VERIF
 
 RULE = ("(a) 'same': generated problems as C07 (mixed sources/receivers, "
         "six mappings x four anisotropy cases, NaN-masked data, all noise "
-        "shapes), gridding='same', in memory or file based: jvec(v) equals "
-        "the central difference, along v, of forward data obtained by DIRECT "
-        "solves of the checker-assembled operator (steps 2e-2, 1e-2 with "
-        "Richardson extrapolation), Re<w,Jv> = <J^T w,v> for random "
-        "real v and complex w (w = 0 where there is no datum), and "
-        "jtvec(residual*weights) = gradient of a fresh simulation.  (b) "
-        "'gridding': a 16x8x8 model grid with generated heterogeneous "
-        "anisotropic model, survey and gridding in {same, single, frequency, "
-        "source, both} with generated gridding options (model-derived "
-        "vectors, cell-number lists, centre on edge or not, domain, "
-        "lambda_factor): adjoint identity for every mode.  Non-trivial = all "
-        "solves converged and |Jv|, |J^T w| > 0; distinct by the spec.")
+        "shapes), computational grid = model grid through gridding='same' "
+        "or gridding='input' with the model grid, in memory or file based, "
+        "on a simulation with a generated HISTORY (fresh; jtvec first; an "
+        "earlier jvec/jtvec pair with other vectors; after gradient; after "
+        "compute+clean('keepresults'); copy(); to_file/from_file): jvec(v) "
+        "equals the central difference, along v, of forward data obtained "
+        "by DIRECT solves of the checker-assembled operator (steps 2e-2, "
+        "1e-2, Richardson), in the aggregate norm AND per block (source x "
+        "receiver type); Re<w,Jv> = <J^T w,v> for real v (dense / one "
+        "cell incl. boundary cells / one component; 3-D, (1,nx,ny,nz), "
+        "Fortran-ordered or strided view) and complex w (dense / scaled by "
+        "1/|Jv| so that every datum counts / a single datum = one row of "
+        "J^T; ndarray or DataArray); v, w and data.synthetic are left unchanged; afterwards, "
+        "on the same simulation, jtvec(residual*weights) = gradient = "
+        "gradient of a fresh simulation, and misfit = fresh misfit.  (b) "
+        "'gridding': a 16x8x8 model grid (uniform, stretched or random "
+        "widths) with generated heterogeneous anisotropic model; fixed or "
+        "generated survey (all source kinds incl. wire and magnetic, "
+        "absolute/relative electric/magnetic receivers, frequencies, noise "
+        "shapes); gridding in {same, single, frequency, source, both} with "
+        "generated gridding options and {input, dict} with checker-built "
+        "stretched non-aligned meshes of 8/16 cells (finer and coarser than "
+        "the model grid, inside and beyond it; dict: per source, per "
+        "frequency or per pair); tol_forward in {1e-10, 1e-4} with "
+        "tol_gradient=1e-10: adjoint identity for every mode, also for a "
+        "second pair of vectors, and jtvec(residual*weights) = gradient of "
+        "a fresh simulation.  Preconditions are evaluated on a separate "
+        "fresh simulation BEFORE jvec/jtvec; every solve is recorded "
+        "(wrapper of emg3d.solver.solve); more than 30 % inconclusive cases "
+        "of a sub-check is a harness error.  Non-trivial = all solves "
+        "converged and |Jv|, |J^T w| > 0; distinct by the spec.")
 ASSUMPTIONS = [
-    "solver tolerance 1e-11 ('same') / 1e-10 (automatic gridding); adjoint "
-    "identity tolerance 1e-6 relative + 1e-7 ||w|| ||Jv|| (measured 1e-9..1e-12 of ||w|| ||Jv||), FD tolerance "
-    "1e-4 ||Jv|| after Richardson extrapolation of direct-solve data "
-    "(measured: median 1e-8, max 7e-6 - the accuracy of emg3d's own "
-    "iterative J v solve on ill-conditioned problems; mutants give >= 6e-2)",
+    "solver tolerance 1e-11 ('same') / 1e-10 (other gridding; tol_gradient "
+    "always 1e-10 there); adjoint identity tolerance 1e-6 relative + 1e-7 "
+    "||w|| ||Jv|| (dense, single) or 1e-7 sum|w_i||Jv_i| (w scaled by "
+    "1/|Jv|) (measured 1e-9..1e-12), FD tolerance 1e-4 ||Jv|| after "
+    "Richardson extrapolation of direct-solve data (measured: median 1e-8, "
+    "max 7e-6 - the accuracy of emg3d's own iterative J v solve on "
+    "ill-conditioned problems; mutants give >= 6e-2); per block 1e-3 "
+    "||Jv_block|| + 1e-5 ||Jv||",
     "data-space vectors w are zero where the observed datum is NaN (missing "
-    "data are not part of the data space)",
+    "data are not part of the data space; whether jtvec uses an entry of w "
+    "at a missing datum depends on the noise model, so it is not generated)",
+    "the adjoint identity holds for ANY fixed forward field, so it is "
+    "demanded with a loosely converged forward field (tol 1e-4) as long as "
+    "the J solves use tol_gradient = 1e-10 (documented: tol_gradient is "
+    "used by jvec/jtvec/gradient)",
+    "jtvec(r*W)/gradient of the used simulation vs. gradient of a fresh "
+    "one: 1e-6 ||gradient|| (measured 0.0), only with all solves converged "
+    "at tight tolerance",
+    "not generated (outside the documented domain): Laplace-domain "
+    "surveys, gridding_opts['expand'], mu_r/epsilon_r != 1, cubic receiver "
+    "interpolation, layered, max_workers > 1",
 ]
 SHARDS = {'quick': 1, 'thorough': 16}
+# Bound of the share of inconclusive cases per sub-check (also enforced by
+# run() below, independent of the framework).
+MAX_INCONCLUSIVE = 0.3
+
+HISTORIES = ['fresh', 'jt_first', 'second_pair', 'after_gradient',
+             'keepresults', 'copy', 'file_roundtrip']
 
 
 def same_spec():
@@ -41,7 +81,13 @@ def same_spec():
         'problem': simgen.problem_spec(max_src=2, max_freq=2),
         'vseed': gen.SEED,
         'file': st.sampled_from([False, False, True]),
-        'vkind': st.sampled_from(['dense', 'dense', 'cell']),
+        'vkind': st.sampled_from(['dense', 'dense', 'cell', 'cell_any',
+                                  'single']),
+        'history': st.sampled_from(['fresh'] + HISTORIES),
+        'wkind': st.sampled_from(['dense', 'normalised', 'single']),
+        'vform': st.sampled_from(['3d', '4d', 'F', 'view']),
+        'wform': st.sampled_from(['ndarray', 'ndarray', 'DataArray']),
+        'same_via': st.sampled_from(['same', 'same', 'input']),
     })
 
 
@@ -51,6 +97,36 @@ def _tmpdir():
     return tempfile.mkdtemp(prefix='c08_', dir=base)
 
 
+@contextlib.contextmanager
+def _solve_log():
+    """Record (exit, tol) of every call of emg3d.solver.solve (all solves of
+    a simulation with max_workers=1 go through it, in memory and file
+    based): jvec and jtvec discard the solver information of their own
+    solves, so convergence is not observable on the simulation."""
+    import emg3d
+    orig = emg3d.solver.solve
+    log = []
+
+    def solve(*args, **kwargs):
+        out = orig(*args, **kwargs)
+        info = out[-1] if isinstance(out, tuple) else out
+        if isinstance(info, dict) and 'exit' in info:
+            log.append((int(info['exit']), kwargs.get('tol')))
+        return out
+    solve.__module__ = orig.__module__
+    solve.__qualname__ = orig.__qualname__
+    emg3d.solver.solve = solve
+    try:
+        yield log
+    finally:
+        emg3d.solver.solve = orig
+
+
+def _require_converged(log, what):
+    if any(e != 0 for e, _ in log):
+        raise Inconclusive(f"{what} solve did not converge")
+
+
 def _wvec(shape, obs, seed):
     rng = gen.rng_of(seed, 91)
     w = rng.standard_normal(shape) + 1j*rng.standard_normal(shape)
@@ -58,9 +134,58 @@ def _wvec(shape, obs, seed):
     return w
 
 
-def _adjoint_identity(sim, v, w, obs, tag, tol):
-    jv = np.array(sim.jvec(v))
-    jtw = np.array(sim.jtvec(w))
+def _w_of_kind(kind, w0, jv, obs, seed):
+    """Data-shaped w; 'normalised': every existing datum contributes O(1) to
+    <w, Jv> (rows of J differ by 1e2..1e3); 'single': one row of J^T."""
+    fin = np.isfinite(obs) & np.isfinite(jv)
+    w = w0.copy()
+    if kind == 'normalised' and fin.any():
+        a = np.abs(jv)
+        top = float(a[fin].max())
+        if top > 0:
+            den = np.where(fin, np.maximum(a, 1e-4*top), top)
+            w = w0*top/den
+    elif kind == 'single' and fin.any():
+        idx = np.argwhere(fin)
+        k = tuple(idx[int(gen.rng_of(seed, 92).integers(0, len(idx)))])
+        w = np.zeros_like(w0)
+        w[k] = w0[k] if w0[k] != 0 else 1.0
+    return w
+
+
+def _as_vform(v, form):
+    """The same numbers in another documented / legitimate ndarray form."""
+    if form == '4d' or v.ndim == 4 and form == '3d':
+        return v if v.ndim == 4 else v[None, ...].copy()
+    if form == 'F':
+        return np.asfortranarray(v)
+    if form == 'view':
+        big = np.zeros(tuple(2*n for n in v.shape))
+        big[tuple(slice(None, None, 2) for _ in v.shape)] = v
+        return big[tuple(slice(None, None, 2) for _ in v.shape)]
+    return v
+
+
+def _call_jvec(sim, vin, tag):
+    keep = vin.copy()
+    jv = np.array(sim.jvec(vin))
+    if not np.array_equal(keep, vin):
+        raise Violation(f"jvec_modified_its_input:{tag}",
+                        f"max change {np.max(np.abs(keep-vin)):.2e}")
+    return jv
+
+
+def _call_jtvec(sim, w, wform, tag):
+    win = sim.data.observed.copy(data=w.copy()) if wform == 'DataArray' \
+        else w.copy()
+    jtw = np.array(sim.jtvec(win))
+    if not np.array_equal(np.asarray(win), w, equal_nan=True):
+        raise Violation(f"jtvec_modified_its_input:{tag}", "w changed")
+    return jtw
+
+
+def _check_pair(jv, jtw, v, w, obs, tag, floor='norm'):
+    """Shape/finiteness checks and the two sides of the adjoint identity."""
     if jtw.shape != v.shape:
         raise Violation(f"jtvec_shape:{tag}", f"{jtw.shape} vs {v.shape}")
     if jv.shape != w.shape:
@@ -72,56 +197,163 @@ def _adjoint_identity(sim, v, w, obs, tag, tol):
         raise Violation(f"jvec_not_finite:{tag}", "NaN/inf in jvec at data")
     lhs = float(np.sum((np.conj(w)*jv)[fin]).real)
     rhs = float(np.sum(jtw*v))
-    scale = float(np.linalg.norm(w[fin])*np.linalg.norm(jv[fin]))
+    if floor == 'norm':
+        scale = float(np.linalg.norm(w[fin])*np.linalg.norm(jv[fin]))
+    else:   # componentwise: magnitude of the terms that are added
+        scale = float(np.sum(np.abs(w[fin])*np.abs(jv[fin])))
+    return lhs, rhs, scale
+
+
+def _adjoint_identity(sim, v, w, obs, tag, tol):
+    jv = np.array(sim.jvec(v))
+    jtw = np.array(sim.jtvec(w))
+    lhs, rhs, scale = _check_pair(jv, jtw, v, w, obs, tag)
     return jv, jtw, lhs, rhs, scale
+
+
+def _adjoint_violated(lhs, rhs, scale):
+    return abs(lhs-rhs) > 1e-6*max(abs(lhs), abs(rhs)) + 1e-7*scale
+
+
+def _apply_history(sim, history, v2, w2, tmp):
+    """Bring the simulation into a generated state; returns the simulation
+    to continue with (copy / reloaded one where applicable)."""
+    import emg3d
+    if history == 'jt_first':
+        sim.jtvec(w2.copy())
+    elif history == 'second_pair':
+        sim.jvec(v2.copy())
+        sim.jtvec(w2.copy())
+    elif history == 'after_gradient':
+        _ = sim.gradient
+    elif history == 'keepresults':
+        sim.compute()
+        sim.clean('keepresults')
+    elif history == 'copy':
+        sim.compute()
+        sim = sim.copy()
+    elif history == 'file_roundtrip':
+        sim.compute()
+        fn = os.path.join(tmp, 'simulation.h5')
+        sim.to_file(fn, what='computed', verb=0)
+        sim = emg3d.Simulation.from_file(fn, verb=0)
+    return sim
 
 
 def case_same(spec, rec):
     with warnings.catch_warnings():
         warnings.simplefilter('ignore')
-        fdir = _tmpdir() if spec['file'] else None
+        tmp = _tmpdir() if (spec['file'] or spec.get('history') ==
+                            'file_roundtrip') else None
+        fdir = None
+        if spec['file']:
+            fdir = os.path.join(tmp, 'fields')
         try:
-            return _case_same(spec, rec, fdir)
+            with _solve_log() as log:
+                return _case_same(spec, rec, fdir, tmp, log)
         finally:
-            if fdir:
-                shutil.rmtree(fdir, ignore_errors=True)
+            if tmp:
+                shutil.rmtree(tmp, ignore_errors=True)
 
 
-def _case_same(spec, rec, fdir):
+def _direction(p, kind, seed):
+    if kind != 'cell_any':
+        return simgen.direction(p, kind, seed)
+    # one cell, boundary cells included (simgen's 'cell' is interior only)
+    rng = gen.rng_of(seed, 85)
+    names, arrs = simgen.param_arrays(p)
+    shape = tuple(p.grid.shape_cells)
+    d = np.zeros((len(names),)+shape)
+    idx = tuple(int(rng.integers(0, n)) for n in shape)
+    d[(int(rng.integers(0, len(names))),)+idx] = 1.0
+    if not p.mapping.startswith('L'):
+        for i, a in enumerate(arrs):
+            d[i] *= np.abs(a)
+    return d
+
+
+def _case_same(spec, rec, fdir, tmp, log):
     p = simgen.build(spec['problem'])
     obs = simgen.observed_from_true(p)
     if obs is None:
         raise Inconclusive("true-model solve did not converge")
     kw = {'file_dir': fdir} if fdir else {}
+    via = spec.get('same_via', 'same')
+    if via == 'input':
+        # the computational grid is the model grid, given as a mesh
+        kw.update(gridding='input', gridding_opts=p.grid)
+    history = spec.get('history', 'fresh')
+    wkind = spec.get('wkind', 'dense')
+    vform = spec.get('vform', '3d')
+    wform = spec.get('wform', 'ndarray')
 
     def fresh(model=None, **k):
         sv = simgen.make_survey(p, obs)
         return simgen.make_sim(p, sv, model, **k)
     tag = f"{p.mapping}:{p.case}:{'file' if fdir else 'mem'}"
-    v = simgen.direction(p, spec['vkind'], spec['vseed'])
+    if history != 'fresh':
+        tag += f":{history}"
+    if via != 'same':
+        tag += f":{via}"
+    v = simgen.direction(p, spec['vkind'], spec['vseed']) \
+        if spec['vkind'] != 'cell_any' else \
+        _direction(p, 'cell_any', spec['vseed'])
     vv = v[0] if v.shape[0] == 1 else v
-    w = _wvec(obs.shape, obs, spec['vseed'])
-    sim = fresh(**kw)
-    jv, jtw, lhs, rhs, scale = _adjoint_identity(sim, vv, w, obs, tag, 1e-6)
-    if not simgen.all_converged(sim):
+    vin = _as_vform(vv, vform)
+    w0 = _wvec(obs.shape, obs, spec['vseed'])
+    # Preconditions of the oracles, established on a separate fresh
+    # in-memory simulation BEFORE the operations under test (a jvec/jtvec
+    # which corrupts data.synthetic must not turn into 'inconclusive').
+    ref = fresh()
+    ref.compute()
+    if not simgen.all_converged(ref):
         raise Inconclusive("forward solve did not converge")
-    if not simgen.data_converged(p, sim):
+    _require_converged(log, 'forward')
+    if not simgen.data_converged(p, ref):
         raise Inconclusive("responses below the accuracy of the solver")
+    syn_ref = ref.data.synthetic.data.copy()
+
+    sim = fresh(**kw)
+    if history != 'fresh':
+        v2 = simgen.direction(p, 'dense', spec['vseed']+1)
+        v2 = v2[0] if v2.shape[0] == 1 else v2
+        w2 = _wvec(obs.shape, obs, spec['vseed']+1)
+        sim = _apply_history(sim, history, v2, w2, tmp)
+    jv = _call_jvec(sim, vin, tag)
+    w = _w_of_kind(wkind, w0, jv, obs, spec['vseed'])
+    jtw = _call_jtvec(sim, w, wform, tag)
+    _require_converged(log, 'forward/J')
+    lhs, rhs, scale = _check_pair(
+        jv, jtw, vv, w, obs, tag,
+        'norm' if wkind != 'normalised' else 'componentwise')
+    # jvec/jtvec leave the synthetic data (of which J is the derivative)
+    syn = sim.data.synthetic.data
+    ok = np.isfinite(syn) == np.isfinite(syn_ref)
+    fin = np.isfinite(syn_ref)
+    top = float(np.max(np.abs(syn_ref[fin]))) if fin.any() else 0.0
+    if not ok.all() or np.any(np.abs(syn-syn_ref)[fin] >
+                              1e-6*np.abs(syn_ref[fin]) + 1e-9*top):
+        raise Violation(f"synthetic_data_changed_by_jvec_jtvec:{tag}",
+                        "data.synthetic after jvec/jtvec differs from the "
+                        "synthetic data of a fresh simulation: max |diff| = "
+                        f"{np.nanmax(np.abs(syn-syn_ref)):.2e}, max |d| = "
+                        f"{top:.2e}")
     nv = float(np.linalg.norm(jv[np.isfinite(jv)]))
     if scale == 0 or nv == 0:
         rec.cls('trivial_zero_sensitivity')
         return
-    if abs(lhs-rhs) > 1e-6*max(abs(lhs), abs(rhs)) + 1e-7*scale:
+    if _adjoint_violated(lhs, rhs, scale):
         raise Violation(f"adjoint_identity:{tag}",
                         f"Re<w,Jv> = {lhs:.10e}, <J^T w,v> = {rhs:.10e} "
-                        f"(rel {abs(lhs-rhs)/max(abs(lhs), abs(rhs)):.2e}); "
+                        f"(rel {abs(lhs-rhs)/max(abs(lhs), abs(rhs)):.2e}, "
+                        f"of scale {abs(lhs-rhs)/scale:.2e}); w {wkind}; "
                         f"sources {spec['problem']['src']}, receivers "
                         f"{spec['problem']['rec']}")
     # (a) J v = derivative of the synthetic data
     # forward data of the perturbed models from direct solves of the
     # checker-assembled operator (no iteration noise), cf. simgen.direct_data
-    fds = [(simgen.direct_data(p, sim, v, eps) -
-            simgen.direct_data(p, sim, v, -eps))/(2*eps)
+    fds = [(simgen.direct_data(p, ref, v, eps) -
+            simgen.direct_data(p, ref, v, -eps))/(2*eps)
            for eps in (2e-2, 1e-2)]
     # Richardson extrapolation removes the O(eps^2) term; what remains is
     # O(eps^4) truncation plus (solver tolerance)/eps.
@@ -134,34 +366,86 @@ def _case_same(spec, rec, fdir):
                         f"and their Richardson extrapolation; "
                         f"sources {spec['problem']['src']}, receivers "
                         f"{spec['problem']['rec']}")
-    # (c) jtvec(residual*weights) = gradient
-    ref = fresh()
+    # ... and per block (source, receiver type): the rows of J differ by
+    # 1e2..1e3 in size (magnetic/electric), the aggregate norm hides an
+    # error confined to the small ones.
+    blk_rel = 0.0
+    if 'wkind' in spec:   # (old specs: aggregate oracle only)
+        rk = np.array([k.startswith('mag') for k in spec['problem']['rec']])
+        for i in range(p.shape[0]):
+            for mag in (False, True):
+                mb = np.zeros(p.shape, bool)
+                mb[i, rk == mag, :] = True
+                mb &= m
+                nb = float(np.linalg.norm(jv[mb]))
+                if nb == 0:
+                    continue
+                eb = float(np.linalg.norm((fd-jv)[mb]))
+                blk_rel = max(blk_rel, eb/nb if nb > 1e-3*nv else 0.0)
+                if eb > 1e-3*nb + 1e-5*nv:
+                    raise Violation(
+                        f"jvec_not_derivative_block:{tag}",
+                        f"source {i} ({spec['problem']['src'][i]}), "
+                        f"{'magnetic' if mag else 'electric'} receivers: "
+                        f"||FD - Jv|| = {eb:.3e}, ||Jv_block|| = {nb:.3e}, "
+                        f"||Jv|| = {nv:.3e}")
+    # (c) jtvec(residual*weights) = gradient, on the used simulation
     g = np.array(ref.gradient)
-    s3 = fresh(**kw)
-    _ = s3.misfit
+    ng = float(np.linalg.norm(g))
+    if 'history' in spec:
+        s3 = sim
+    else:    # old specs: a fresh simulation
+        s3 = fresh(**kw)
+        _ = s3.misfit
     vec = s3.data.residual.data*s3.data.weights.data
     jt = np.array(s3.jtvec(vec))
-    ng = float(np.linalg.norm(g))
-    if ng > 0 and np.linalg.norm(jt-g) > 1e-7*ng:
+    _require_converged(log, 'gradient')
+    if ng > 0 and np.linalg.norm(jt-g) > 1e-6*ng:
         raise Violation(f"jtvec_of_weighted_residual_not_gradient:{tag}",
                         f"||jtvec(r*W) - gradient||/||gradient|| = "
                         f"{np.linalg.norm(jt-g)/ng:.2e}")
+    if 'history' in spec:
+        g3 = np.array(s3.gradient)
+        _require_converged(log, 'gradient')
+        if g3.shape != g.shape or np.linalg.norm(g3-g) > 1e-6*ng:
+            raise Violation(f"gradient_after_jvec_jtvec:{tag}",
+                            "gradient of the simulation after jvec/jtvec "
+                            "differs from the gradient of a fresh one: "
+                            f"rel {np.linalg.norm(g3-g)/max(ng, 1e-300):.2e}")
+        m3, m0 = float(s3.misfit), float(ref.misfit)
+        if abs(m3-m0) > 1e-6*abs(m0):
+            raise Violation(f"misfit_after_jvec_jtvec:{tag}",
+                            f"{m3!r} vs fresh {m0!r}")
     rec.cls(f"mapping={p.mapping}", f"case={p.case}", f"file={bool(fdir)}",
             f"vkind={spec['vkind']}",
             f"nan={spec['problem']['nan_frac'] > 0}",
+            f"history={history}", f"wkind={wkind}", f"vform={vform}",
+            f"wform={wform}", f"same_via={via}",
             *[f"src={k}" for k in set(spec['problem']['src'])],
             *[f"rec={k}" for k in set(spec['problem']['rec'])])
     rec.nt(spec)
     rec.note({'mapping': p.mapping, 'case': p.case, 'fd_errs': errs,
+              'fd_block_rel': blk_rel,
               'adjoint_rel': abs(lhs-rhs)/max(abs(lhs), abs(rhs), 1e-300),
               'adjoint_vs_scale': abs(lhs-rhs)/scale})
 
 
 # ------------------------------------------------------- gridding modes
+G_SRC = ['el_point', 'el_dipole', 'el_dipole_2pt', 'el_wire', 'mag_point',
+         'mag_dipole']
+G_REC = ['el', 'el', 'mag', 'el_rel', 'mag_rel']
+# sources inside +-BOX_S, absolute receivers inside +-BOX_R; relative
+# receivers: offsets inside +-(BOX_R - BOX_S); automatic gridding domain
+# +-(300, 200, 200) contains all of them.
+BOX_S = np.array([180., 120., 120.])
+BOX_R = np.array([280., 180., 180.])
+
+
 def gridding_spec():
     return st.fixed_dictionaries({
         'gridding': st.sampled_from(['single', 'frequency', 'source',
-                                     'both', 'same']),
+                                     'both', 'same', 'input', 'dict',
+                                     'input', 'dict']),
         'case': st.sampled_from(gen.CASES),
         'mapping': st.sampled_from(gen.MAPPINGS),
         'nsrc': st.integers(1, 2),
@@ -174,6 +458,27 @@ def gridding_spec():
         'file': st.sampled_from([False, False, True]),
         'nan': st.booleans(),
         'seed': gen.SEED,
+        # --- added (absent in old specs = previous behaviour)
+        'mgrid': st.sampled_from(['uniform', 'stretch', 'random']),
+        'survey': st.sampled_from(['fixed', 'generated', 'generated']),
+        'src_kinds': st.lists(st.sampled_from(G_SRC), min_size=2,
+                              max_size=2),
+        'rec_kinds': st.lists(st.sampled_from(G_REC), min_size=2,
+                              max_size=4),
+        'freqs': st.lists(gen.lgfloat(0.5, 3.0), min_size=2, max_size=2,
+                          unique=True),
+        'noise_shape': st.sampled_from(simgen.NOISE_SHAPES),
+        'cgrid': st.fixed_dictionaries({
+            'n': st.lists(st.sampled_from([8, 8, 16]), min_size=3,
+                          max_size=3),
+            'alpha': st.sampled_from([1.0, 1.1, 1.3]),
+            'extent': st.sampled_from([1.05, 1.5, 2.0]),
+            'per': st.sampled_from(['source', 'frequency', 'pair']),
+        }),
+        'tol_forward': st.sampled_from([1e-10, 1e-10, 1e-4]),
+        'wkind': st.sampled_from(['dense', 'normalised', 'single']),
+        'second_pair': st.booleans(),
+        'gradient': st.booleans(),
     })
 
 
@@ -182,20 +487,111 @@ def case_gridding(spec, rec):
         warnings.simplefilter('ignore')
         fdir = _tmpdir() if spec['file'] else None
         try:
-            return _case_gridding(spec, rec, fdir)
+            with _solve_log() as log:
+                return _case_gridding(spec, rec, fdir, log)
         finally:
             if fdir:
                 shutil.rmtree(fdir, ignore_errors=True)
 
 
-def _case_gridding(spec, rec, fdir):
+def _model_grid(kind, seed):
+    import emg3d
+    if kind == 'uniform':
+        hx = np.ones(16)*100.
+        return emg3d.TensorMesh([hx, hx[:8], hx[:8]],
+                                origin=(-800, -400, -400))
+    rng = gen.rng_of(seed, 96)
+    hs, origin = [], []
+    for n in (16, 8, 8):
+        if kind == 'stretch':
+            k = np.floor(np.abs(np.arange(n)-(n-1)/2))
+            h = 70.*rng.uniform(1.02, 1.15)**k
+        else:
+            h = 100.*rng.uniform(0.6, 1.5, size=n)
+        hs.append(h)
+        origin.append(float(-h.sum()/2 + rng.uniform(-30, 30)))
+    return emg3d.TensorMesh(hs, origin=origin)
+
+
+def _comp_mesh(cg, seed, salt):
+    """Checker-built computational mesh: n cells per direction, widths
+    growing by alpha from the centre outwards, the region of sources and
+    receivers (+-BOX_R, enlarged by 'extent') inside the 3rd..3rd-last
+    cell, shifted so that its nodes are not aligned with the model grid."""
+    import emg3d
+    rng = gen.rng_of(seed, salt)
+    hs, origin = [], []
+    for d in range(3):
+        n = int(cg['n'][d])
+        k = np.floor(np.abs(np.arange(n)-(n-1)/2))
+        r = float(cg['alpha'])**k
+        half = float(cg['extent'])*BOX_R[d]
+        h = r*(2*half/r[2:-2].sum())
+        shift = float(rng.uniform(-1, 1))*0.04*BOX_R[d]
+        hs.append(h)
+        origin.append(shift - half - h[:2].sum())
+    return emg3d.TensorMesh(hs, origin=origin)
+
+
+def _gen_survey(spec, rng):
+    """Generated sources / receivers / frequencies of the 'gridding' case."""
+    import emg3d
+
+    def ang():
+        return float(rng.uniform(-180, 180)), float(rng.uniform(-80, 80))
+
+    def pt(box):
+        return rng.uniform(-box, box)
+    srcs = []
+    for kind in spec['src_kinds'][:spec['nsrc']]:
+        st_ = float(rng.uniform(0.5, 3.0))
+        if kind == 'el_point':
+            s = emg3d.TxElectricPoint((*pt(BOX_S), *ang()), strength=st_)
+        elif kind == 'mag_point':
+            s = emg3d.TxMagneticPoint((*pt(BOX_S), *ang()), strength=st_)
+        elif kind == 'el_dipole':
+            s = emg3d.TxElectricDipole((*pt(BOX_S-30.), *ang()),
+                                       strength=st_,
+                                       length=float(rng.uniform(10, 60)))
+        elif kind == 'el_dipole_2pt':
+            s = emg3d.TxElectricDipole(np.array([pt(BOX_S), pt(BOX_S)]),
+                                       strength=st_)
+        elif kind == 'mag_dipole':
+            c = pt(BOX_S-10.)
+            dv = rng.standard_normal(3)
+            dv *= float(rng.uniform(4, 16))/np.linalg.norm(dv)
+            s = emg3d.TxMagneticDipole(np.array([c-dv/2, c+dv/2]),
+                                       strength=st_)
+        elif kind == 'el_wire':
+            pts = np.array([pt(BOX_S) for _ in range(int(rng.integers(3,
+                                                                     6)))])
+            s = emg3d.TxElectricWire(pts, strength=st_)
+        else:
+            raise HarnessError(f"unknown source kind {kind}")
+        srcs.append(s)
+    recs = []
+    for kind in spec['rec_kinds']:
+        cls = emg3d.RxElectricPoint if kind.startswith('el') \
+            else emg3d.RxMagneticPoint
+        if kind.endswith('_rel'):
+            recs.append(cls((*pt(BOX_R-BOX_S), *ang()), relative=True))
+        else:
+            recs.append(cls((*pt(BOX_R), *ang())))
+    freqs = sorted(float(f) for f in spec['freqs'][:spec['nfreq']])
+    return srcs, recs, freqs
+
+
+def _case_gridding(spec, rec, fdir, log):
     import emg3d
     rng = gen.rng_of(spec['seed'], 95)
-    hx = np.ones(16)*100.
-    grid = emg3d.TensorMesh([hx, hx[:8], hx[:8]], origin=(-800, -400, -400))
+    grid = _model_grid(spec.get('mgrid', 'uniform'), spec['seed'])
     shape = grid.shape_cells
     m = spec['mapping']
     case = spec['case']
+    gridding = spec['gridding']
+    generated = spec.get('survey', 'fixed') == 'generated'
+    tol_f = float(spec.get('tol_forward', 1e-10))
+    wkind = spec.get('wkind', 'dense')
 
     def cond():
         return 10**rng.uniform(-0.5, 0.5, size=shape)
@@ -204,40 +600,74 @@ def _case_gridding(spec, rec, fdir):
     sz = cond() if case in ('VTI', 'triaxial') else None
     model = emg3d.Model(grid, gen.map_forward(m, sx), gen.map_forward(m, sy),
                         gen.map_forward(m, sz), mapping=m)
-    pos = [(-120., 20., -30.), (100., -30., 40.)][:spec['nsrc']]
-    srcs = []
-    for i, c in enumerate(pos):
-        az, el = float(rng.uniform(-180, 180)), float(rng.uniform(-60, 60))
-        if i == 0:
-            srcs.append(emg3d.TxElectricDipole((*c, az, el), length=40.))
-        else:
-            srcs.append(emg3d.TxElectricPoint((*c, az, el)))
-    recs = [emg3d.RxElectricPoint((130, 100, -60, float(rng.uniform(0, 90)),
-                                   0)),
-            emg3d.RxElectricPoint((-120, 100, 80, 90, 10)),
-            emg3d.RxMagneticPoint((20, -100, 60, 30, 40)),
-            emg3d.RxElectricPoint((150, 50, 30, 20, 5), relative=True)]
-    freqs = [0.7, 2.0][:spec['nfreq']]
+    if generated:
+        srcs, recs, freqs = _gen_survey(spec, gen.rng_of(spec['seed'], 97))
+    else:
+        pos = [(-120., 20., -30.), (100., -30., 40.)][:spec['nsrc']]
+        srcs = []
+        for i, c in enumerate(pos):
+            az, el = float(rng.uniform(-180, 180)), float(rng.uniform(-60,
+                                                                      60))
+            if i == 0:
+                srcs.append(emg3d.TxElectricDipole((*c, az, el), length=40.))
+            else:
+                srcs.append(emg3d.TxElectricPoint((*c, az, el)))
+        recs = [emg3d.RxElectricPoint((130, 100, -60,
+                                       float(rng.uniform(0, 90)), 0)),
+                emg3d.RxElectricPoint((-120, 100, 80, 90, 10)),
+                emg3d.RxMagneticPoint((20, -100, 60, 30, 40)),
+                emg3d.RxElectricPoint((150, 50, 30, 20, 5), relative=True)]
+        freqs = [0.7, 2.0][:spec['nfreq']]
     solver = dict(sslsolver='bicgstab', semicoarsening=True,
                   linerelaxation=True, tol=1e-10, maxit=300, verb=-1)
+    if 'tol_forward' in spec:
+        # documented: tol is used by compute, tol_gradient by
+        # jvec/jtvec/gradient
+        solver.update(tol=tol_f, tol_gradient=1e-10)
+    ns, nr, nf = len(srcs), len(recs), len(freqs)
+    noise = dict(noise_floor=1e-13, relative_error=0.03)
+    nshape = spec.get('noise_shape', 'scalar')
+    if nshape != 'scalar':
+        shp = {'src': (ns, 1, 1), 'rec': (1, nr, 1), 'freq': (1, 1, nf),
+               'full': (ns, nr, nf)}[nshape]
+        rn = gen.rng_of(spec['seed'], 98)
+        noise = dict(noise_floor=1e-13*rn.uniform(0.5, 2, size=shp),
+                     relative_error=0.03*rn.uniform(0.5, 2, size=shp))
+
+    def gopts(sv):
+        if gridding == 'input':
+            return _comp_mesh(spec['cgrid'], spec['seed'], 100)
+        if gridding == 'dict':
+            per = spec['cgrid']['per']
+            out = {}
+            for i, sn in enumerate(sv.sources.keys()):
+                out[sn] = {}
+                for k, fn in enumerate(sv.frequencies.keys()):
+                    salt = {'source': 100+i, 'frequency': 100+k,
+                            'pair': 100+2*i+k}[per]
+                    out[sn][fn] = _comp_mesh(spec['cgrid'], spec['seed'],
+                                             salt)
+            return out
+        go = {'center_on_edge': spec['center_on_edge'],
+              'lambda_factor': spec['lambda_factor'],
+              'cell_numbers': spec['cell_numbers'],
+              'domain': {'x': [-300, 300], 'y': [-200, 200],
+                         'z': [-200, 200]},
+              'min_width_limits': [60, 150]}
+        if spec['vector']:
+            go['vector'] = spec['vector']
+        return go
 
     def mksim(obs=None):
-        sv = emg3d.Survey(srcs, recs, freqs, data=obs, noise_floor=1e-13,
-                          relative_error=0.03)
+        sv = emg3d.Survey(srcs, recs, freqs, data=obs,
+                          **{k: (np.array(x) if isinstance(x, np.ndarray)
+                                 else x) for k, x in noise.items()})
         kw = {}
-        if spec['gridding'] != 'same':
-            go = {'center_on_edge': spec['center_on_edge'],
-                  'lambda_factor': spec['lambda_factor'],
-                  'cell_numbers': spec['cell_numbers'],
-                  'domain': {'x': [-300, 300], 'y': [-200, 200],
-                             'z': [-200, 200]},
-                  'min_width_limits': [60, 150]}
-            if spec['vector']:
-                go['vector'] = spec['vector']
-            kw['gridding_opts'] = go
+        if gridding != 'same':
+            kw['gridding_opts'] = gopts(sv)
         if fdir:
             kw['file_dir'] = fdir
-        return emg3d.Simulation(sv, model.copy(), gridding=spec['gridding'],
+        return emg3d.Simulation(sv, model.copy(), gridding=gridding,
                                 max_workers=1,
                                 receiver_interpolation='linear',
                                 solver_opts=dict(solver), tqdm_opts=False,
@@ -251,41 +681,123 @@ def _case_gridding(spec, rec, fdir):
     s0.compute(observed=True, add_noise=False)
     if not simgen.all_converged(s0):
         raise Inconclusive("forward solve did not converge")
+    _require_converged(log, 'forward')
     obs = s0.data.observed.data.copy()*(1.2+0.1j)
     if spec['nan']:
-        obs[0, 1, 0] = np.nan
-        obs[-1, 2, -1] = np.nan
+        if generated:
+            rn = gen.rng_of(spec['seed'], 99)
+            mask = rn.random(obs.shape) < 0.2
+            if mask.all():
+                mask.flat[0] = False
+            obs[mask] = np.nan
+        else:
+            obs[0, 1, 0] = np.nan
+            obs[-1, 2, -1] = np.nan
     sim = mksim(obs)
     ncomp = {'isotropic': 1, 'HTI': 2, 'VTI': 2, 'triaxial': 3}[case]
     v = rng.standard_normal((ncomp,)+tuple(shape))
     vv = v[0] if ncomp == 1 else v
-    w = _wvec(obs.shape, obs, spec['seed'])
-    tag = f"{spec['gridding']}:{case}"
-    jv, jtw, lhs, rhs, scale = _adjoint_identity(sim, vv, w, obs, tag, 1e-5)
+    w0 = _wvec(obs.shape, obs, spec['seed'])
+    tag = f"{gridding}:{case}"
+    if 'wkind' not in spec:     # old specs
+        jv, jtw, lhs, rhs, scale = _adjoint_identity(sim, vv, w0, obs, tag,
+                                                     1e-5)
+        pairs = [('', lhs, rhs, scale)]
+    else:
+        pairs = []
+        todo = [('', vv, spec['seed'], wkind)]
+        if spec.get('second_pair'):
+            # other vectors on the same simulation (stale state of the
+            # first pair: data['jvec'], gfield files, restored bfields)
+            r2 = gen.rng_of(spec['seed'], 93)
+            v2 = r2.standard_normal(v.shape)
+            todo.append((':second_pair', v2[0] if ncomp == 1 else v2,
+                         spec['seed']+1, 'dense'))
+        for sfx, vk, sd, wk in todo:
+            jv = _call_jvec(sim, vk, tag+sfx)
+            wbase = w0 if not sfx else _wvec(obs.shape, obs, sd)
+            w = _w_of_kind(wk, wbase, jv, obs, sd)
+            jtw = _call_jtvec(sim, w, 'ndarray', tag+sfx)
+            lhs, rhs, scale = _check_pair(
+                jv, jtw, vk, w, obs, tag+sfx,
+                'norm' if wk != 'normalised' else 'componentwise')
+            pairs.append((sfx, lhs, rhs, scale))
+    _require_converged(log, 'forward/J')
     for which in ('efield', 'bfield'):
         if not simgen.all_converged(sim, which):
             raise Inconclusive(f"{which} solve did not converge")
-    den = max(abs(lhs), abs(rhs))
+    sname = list(sim.survey.sources.keys())[0]
+    g = tuple(int(n) for n in sim.get_grid(sname, 'f-1').shape_cells)
+    den = max(abs(pairs[0][1]), abs(pairs[0][2]))
     if den == 0:
         rec.cls('trivial_zero_sensitivity')
         return
-    if abs(lhs-rhs) > 1e-6*den + 1e-7*scale:
-        g = sim.get_grid('TxED-1', 'f-1').shape_cells
-        raise Violation(f"adjoint_identity:{tag}",
-                        f"Re<w,Jv> = {lhs:.10e}, <J^T w,v> = {rhs:.10e} "
-                        f"(rel {abs(lhs-rhs)/den:.2e}); comp. grid {g}; "
-                        f"spec {spec}")
-    g = tuple(int(n) for n in sim.get_grid('TxED-1', 'f-1').shape_cells)
-    rec.cls(f"gridding={spec['gridding']}", f"case={case}", f"mapping={m}",
+    for sfx, lhs, rhs, scale in pairs:
+        if _adjoint_violated(lhs, rhs, scale):
+            d = max(abs(lhs), abs(rhs), 1e-300)
+            raise Violation(f"adjoint_identity:{tag}{sfx}",
+                            f"Re<w,Jv> = {lhs:.10e}, <J^T w,v> = {rhs:.10e} "
+                            f"(rel {abs(lhs-rhs)/d:.2e}, of scale "
+                            f"{abs(lhs-rhs)/max(scale, 1e-300):.2e}); comp. "
+                            f"grid {g}; spec {spec}")
+    # jtvec(residual*weights) = gradient (of a fresh simulation), for every
+    # gridding mode; both with tightly converged forward fields only.
+    did_grad = False
+    if spec.get('gradient') and tol_f == 1e-10:
+        vec = sim.data.residual.data*sim.data.weights.data
+        jt = np.array(sim.jtvec(vec))
+        n0 = len(log)
+        refsim = mksim(obs)
+        gr = np.array(refsim.gradient)
+        _require_converged(log, 'gradient')
+        if len(log) == n0:
+            raise HarnessError("solves of the reference gradient were not "
+                               "recorded")
+        ng = float(np.linalg.norm(gr))
+        if jt.shape != gr.shape or (ng > 0 and
+                                    np.linalg.norm(jt-gr) > 1e-6*ng):
+            raise Violation(
+                f"jtvec_of_weighted_residual_not_gradient:{tag}",
+                f"||jtvec(r*W) - gradient||/||gradient|| = "
+                f"{np.linalg.norm(jt-gr)/max(ng, 1e-300):.2e}; spec {spec}")
+        did_grad = True
+    lhs, rhs, scale = pairs[0][1:]
+    hmin = min(float(np.min(hh)) for hh in sim.get_grid(sname, 'f-1').h)
+    finer = hmin < 0.8*min(float(np.min(hh)) for hh in grid.h)
+    rec.cls(f"gridding={gridding}", f"case={case}", f"mapping={m}",
             f"file={bool(fdir)}", f"vector={spec['vector']}",
-            f"nan={spec['nan']}")
+            f"nan={spec['nan']}", f"mgrid={spec.get('mgrid', 'uniform')}",
+            f"survey={'generated' if generated else 'fixed'}",
+            f"tol_forward={tol_f:g}", f"wkind={wkind}",
+            f"second_pair={bool(spec.get('second_pair'))}",
+            f"gradient_clause={did_grad}", f"noise_shape={nshape}",
+            f"comp_finer_than_model={finer}")
+    if generated:
+        rec.cls(*[f"src={k}" for k in set(spec['src_kinds'][:ns])],
+                *[f"rec={k}" for k in set(spec['rec_kinds'])])
+    if gridding == 'dict':
+        rec.cls(f"dict_per={spec['cgrid']['per']}")
     rec.nt(spec)
-    rec.note({'gridding': spec['gridding'], 'comp_grid': list(g),
+    rec.note({'gridding': gridding, 'comp_grid': list(g),
               'adjoint_rel': abs(lhs-rhs)/den,
-              'adjoint_vs_scale': abs(lhs-rhs)/scale})
+              'adjoint_vs_scale': abs(lhs-rhs)/scale,
+              'solves': len(log)})
 
 
 SUBS = {'same': case_same, 'gridding': case_gridding}
+
+
+def _bounded_inconclusive(ctx, sub):
+    """More than MAX_INCONCLUSIVE of the cases of a sub-check dropped by a
+    precondition: the check decided too little (or a regression turns every
+    case into 'inconclusive') - harness error, never a silent pass."""
+    inc = sum(n for k, n in ctx.inconclusive.items()
+              if k.startswith(sub + ':'))
+    done = ctx.per_sub.get(sub, 0)
+    if inc >= 4 and inc > MAX_INCONCLUSIVE*(inc+done):
+        raise HarnessError(f"{sub}: {inc} of {inc+done} cases inconclusive "
+                           f"(> {MAX_INCONCLUSIVE:.0%}): "
+                           f"{dict(ctx.inconclusive)}")
 
 
 def run(ctx):
@@ -294,3 +806,6 @@ def run(ctx):
                 shrink=not ctx.quick)
     ctx.explore('gridding', gridding_spec(), case_gridding, ctx.n(12, 30),
                 shrink=not ctx.quick)
+    for sub in SUBS:
+        if ctx.wants(sub):
+            _bounded_inconclusive(ctx, sub)
